@@ -72,4 +72,18 @@ def named_ids(r, resolve_ref=None, out=None):
         i = idspec(n)
         if i is not None:
             out.add(i)
+        if n[0] in ("cicJE", "from_json"):
+            _json_ids(n[1], out)
     return out
+
+
+def _json_ids(d, out):
+    """every "id" given in a JSON / cicJE description (leaf ids included: harmless, only compounds are filtered)"""
+    if isinstance(d, dict):
+        if isinstance(d.get("id"), str):
+            out.add(d["id"])
+        for v in d.values():
+            _json_ids(v, out)
+    elif isinstance(d, list):
+        for v in d:
+            _json_ids(v, out)
